@@ -171,9 +171,9 @@ func (m *model) Init(dir string) error {
 }
 
 func (m *model) Actions() []string {
-	a := []string{"user-new", "bug-new", "comment", "title", "status", "label", "select", "deselect", "push", "pull", "rm", "attach", "peer-edit", "bridge", "gql", "ls"}
+	a := []string{"user-new", "bug-new", "comment", "title", "status", "label", "select", "deselect", "push", "pull", "rm", "attach", "peer-edit", "bridge", "gql", "ls", "wipe"}
 	if m.p.Alphabet == "thorough" {
-		a = append(a, "comment-edit", "show", "user-ls", "label-ls", "wipe")
+		a = append(a, "comment-edit", "show", "user-ls", "label-ls")
 	}
 	return a
 }
